@@ -46,6 +46,10 @@ def run(tier, seed, t0):
     vlib.classify(v, events, mism, describe)
     for l in open(os.path.join(out, "c11.float.ndjson")):
         e = json.loads(l)
+        if e["kind"].startswith("Circle"):
+            v.violation({"property": PID, "event": e, "what": "%s centred at %s: Rect() = %s, Center() = %s; the tight box of the positions of its polygon approximation is %s" % (
+                e["kind"], e["points"][0], e["rect"], e["center"], e["exact_center"])})
+            continue
         v.violation({"property": PID, "event": e, "what": "%s over the positions %s: Rect() = %s, Center() = %s; the tight box is (min, max) of the values and its "
                      "midpoint, rounded to the nearest float64, is %s" % (e["kind"], e["points"], e["rect"], e["center"], e["exact_center"])})
     rc = v.finish()
